@@ -244,7 +244,18 @@ def collection_table(ctx: Ctx, I: Interp) -> None:
             seen_kinds.add(k)
             muts = [e for e in eff if e.kind == "mutcall"]
             if k == "HTMLDEP":
-                ok = len(muts) == 1 and muts[0].key == "append" and muts[0].value and muts[0].value[0] is x and l.kind in ("fall", "continue")
+                def _adds_exactly(m_: Any) -> bool:
+                    # append(x)  ==  extend([x]) / += (x,)
+                    if not m_.value:
+                        return False
+                    a0 = m_.value[0]
+                    if m_.key == "append":
+                        return a0 is x
+                    if m_.key in ("extend", "__iadd__"):
+                        its = a0.items if isinstance(a0, SList) and a0.mode == "concrete" else list(a0) if isinstance(a0, (list, tuple)) else None
+                        return its is not None and len(its) == 1 and its[0] is x
+                    return False
+                ok = len(muts) == 1 and _adds_exactly(muts[0]) and l.kind in ("fall", "continue")
                 ctx.check(ok, "C10.collect", "a dependency child is appended to the result", where, f"HTMLDEP: {[repr(e)[:50] for e in muts]}{cond}",
                           f"a dependency child is not unconditionally appended{cond}: with dedup disabled something is dropped or reordered",
                           witness="TagList(a, b, a).get_dependencies(dedup=False)")
@@ -338,8 +349,14 @@ def init_validation(ctx: Ctx, I: Interp) -> None:
     names = [a.arg for a in fn.args.args] + [a.arg for a in fn.args.kwonlyargs]
     for fld in ("script", "stylesheet", "meta", "source", "version"):
         ctx.require(fld in names, f"HTMLDependency.__init__ has no parameter `{fld}`")
+    # the validators as methods (interpreted through their call sites and their own tables), or - when a refactoring has folded
+    # them into other code - validation decided from the paths of the constructor itself
+    has_validators = prog.has_function(CORE, "HTMLDependency._validate_dicts") and prog.has_function(CORE, "HTMLDependency._validate_dict")
     cfg = Config()
     cfg.opaque = {"HTMLDependency._validate_dicts"}
+    if not has_validators:
+        cfg.opaque_all = True
+        cfg.coarse_counts = True
 
     def mk(run: Any):
         s = SNew(prog.get_class("HTMLDependency"))
@@ -347,7 +364,7 @@ def init_validation(ctx: Ctx, I: Interp) -> None:
         objs: Dict[str, Any] = {}
         for nme in names[1:]:
             if nme in req:
-                o = SObj(nme, {"NONE", "DICT", "LIST"})
+                o = SObj(nme, {"NONE", "DICT", "LIST"} if has_validators else {"NONE"})
             elif nme == "source":
                 o = SObj(nme, {"NONE", "DICT", "STR", "LIST", "OTHER"})
             elif nme == "version":
@@ -402,7 +419,7 @@ def init_validation(ctx: Ctx, I: Interp) -> None:
                 kw_ = (e.extra or {}).get("kwargs") or {}
                 return kw_.get("req_attr", next(iter(kw_.values()), None)) if kw_ else None
             good_keys = bool(before) and _const_list(_req(before[0])) == keys
-            ctx.check(bool(before) and good_keys, "C10.valid", f"{fld} ({kind}) is validated with required keys {keys} before it is stored", where,
+            ctx.check((bool(before) and good_keys) or not has_validators, "C10.valid", f"{fld} ({kind}) is validated with required keys {keys} before it is stored", where,
                       f"{fld} given as {kind}: validation calls {[ (short(e.value[0]), _const_list(_req(e))) for e in vcalls]}",
                       f"`{fld}` given as {kind} is stored without being validated for {keys} first"
                       f"{' (validated keys: ' + str(_const_list(_req(vcalls[0]))) + ')' if vcalls else ''}",
@@ -430,7 +447,80 @@ def init_validation(ctx: Ctx, I: Interp) -> None:
             ctx.check(vst.value is ver, "C10.version", "a Version object is stored as is", where, f"self.version = {short(vst.value)}", "a Version argument is transformed")
     ctx.min_count("HTMLDependency.__init__ accepting paths", n_ok, 4)
     # _validate_dicts / _validate_dict tables
-    _validate_tables(ctx, I)
+    if has_validators:
+        _validate_tables(ctx, I)
+    else:
+        _validation_by_paths(ctx, I, fn, names, req)
+
+
+def _validation_by_paths(ctx: Ctx, I: Interp, fn: Any, names: List[str], req: Dict[str, List[str]]) -> None:
+    """The item validation read off the constructor's own paths (no separate validator methods): for script / stylesheet / meta
+    given as one dict or as a list, every path that *returns* has tested the item to be a dict holding all required keys, a
+    non-dict item raises TypeError and a missing key KeyError."""
+    prog = ctx.prog
+    where = f"{CORE}:HTMLDependency.__init__"
+    wit = {"script": "HTMLDependency('a','1', script={'href': 'x.js'})", "stylesheet": "HTMLDependency('a','1', stylesheet={'src': 'x.css'})",
+           "meta": "HTMLDependency('a','1', meta={'name': 'x'})"}
+    for fld, keys in req.items():
+        for shape in ("DICT", "LIST"):
+            def mk(run: Any, fld: str = fld, shape: str = shape):
+                s = SNew(prog.get_class("HTMLDependency"))
+                b: Dict[str, Any] = {fn.args.args[0].arg: s}
+                for nme in names[1:]:
+                    if nme == fld:
+                        o = SObj(nme, {shape})
+                        if shape == "LIST":
+                            o.meta["elem_kinds"] = frozenset({"DICT", "STR", "LIST", "NONE", "OTHER"})
+                        run.__dict__["o"] = o
+                    elif nme in req or nme in ("source", "head"):
+                        o = None
+                    elif nme == "version":
+                        o = SObj(nme, {"VERSION"})
+                    elif nme == "all_files":
+                        o = False
+                    else:
+                        o = SObj(nme, {"STR"})
+                    b[nme] = o
+                return b, s
+
+            cfg = Config()
+            cfg.coarse_counts = True
+            n_ret = n_tested = 0
+            for l in I.run_function(CORE, "HTMLDependency.__init__", mk, cfg):
+                o = l.run.__dict__["o"]
+                recs = [r for r in l.run.loops if r.iter_value is o and isinstance(r.__dict__.get("element"), SObj)]
+                if l.kind == "return" and any(r.__dict__.get("sample_exited") for r in recs):
+                    continue        # the sampled item made an iteration raise: that case is a raising path of its own
+                items = [o] if shape == "DICT" else [r.__dict__["element"] for r in recs]
+                tests = []
+                for it in items:
+                    isdict = True if shape == "DICT" else None
+                    present: Dict[str, bool] = {}
+                    for atom, val in l.atoms:
+                        if isinstance(atom, tuple) and atom[0] == "isinstance" and atom[1] == it.uid and "dict" in str(atom[2]).lower():
+                            isdict = not str(val).startswith("not")
+                        if isinstance(atom, tuple) and atom[0] == "in" and isinstance(atom[1], str) and atom[2] == ("coll", it.uid):
+                            present[atom[1]] = bool(val)
+                    tests.append((isdict, present))
+                if l.kind == "return":
+                    n_ret += 1
+                    good = [t for t in tests if t[0] is True and all(t[1].get(k) is True for k in keys)]
+                    n_tested += 1 if good else 0
+                    ctx.check(bool(good), "C10.valid", f"{fld} ({shape.lower()}): an item is accepted only as a dict holding {keys}", where,
+                              f"{fld} given as {shape}: accepted with item tests {tests}",
+                              f"an item of `{fld}` is accepted without having been tested to be a dict that holds {keys} (tests made on this path: {tests})",
+                              witness=wit[fld])
+                else:
+                    for isdict, present in tests:
+                        if isdict is False:
+                            ctx.check(getattr(l.value, "cls_name", "") == "TypeError", "C10.valid", f"{fld}: a non-dict item raises TypeError", where,
+                                      f"non-dict item: raise {getattr(l.value, 'cls_name', '?')}", "a non-dict item is rejected with the wrong exception")
+                        elif any(present.get(k) is False for k in keys):
+                            ctx.check(getattr(l.value, "cls_name", "") == "KeyError", "C10.valid", f"{fld}: a missing required key raises KeyError", where,
+                                      f"missing key: raise {getattr(l.value, 'cls_name', '?')}", "an item lacking a required key is rejected with the wrong exception")
+            ctx.require(n_ret >= 1, f"HTMLDependency.__init__ never returns for {fld} given as {shape}")
+            ctx.check(n_tested >= 1, "C10.valid", f"{fld} ({shape.lower()}) is validated for {keys}", where, f"{fld} given as {shape}: no item test on any returning path",
+                      f"`{fld}` given as {shape} is stored without its items being validated for {keys}", witness=wit[fld])
 
 
 def _const_list(v: Any) -> Any:
@@ -555,18 +645,29 @@ def render_reports_resolved(ctx: Ctx, I: Interp, rule: str = "C10.dedup") -> Non
         for l in I.run_function(CORE, q, mk, cfg):
             if l.kind != "return":
                 continue
-            for e in l.effects:
-                if e.kind == "call" and getattr(e.target, "qual", "").endswith(".get_dependencies"):
-                    n += 1
-                    kw = dict((e.extra or {}).get("kwargs") or {})
-                    pos = list(e.value or [])
-                    d = kw.get("dedup", pos[0] if pos else True)
-                    ctx.check(d is True and len(pos) <= 1 and set(kw) <= {"dedup"}, rule, f"{q} reports the resolved dependencies (dedup left on)", where,
-                              f"get_dependencies({', '.join([short(x) for x in pos] + [f'{k}={short(v)}' for k, v in kw.items()])})",
-                              f"{q} collects its dependencies with dedup={short(d)}: render()['dependencies'] (and with it HTMLDocument.render's list and the "
-                              f"directories save_html copies) contains superseded versions and duplicates, while the markup links only the resolved ones",
-                              witness="HTMLDocument(div(dep_v2, dep_v1)).save_html(f, include_version=False)")
-        ctx.require(n >= 1, f"{q} does not collect dependencies")
+            v = l.value
+            d_ = None
+            if isinstance(v, SDict):
+                for k_, x_ in v.items.items():
+                    if (k_.v if hasattr(k_, "v") else k_) == "dependencies":
+                        d_ = x_
+            c_ = (d_.meta.get("call") if isinstance(d_, SObj) else d_.__dict__.get("call") if isinstance(d_, SOpaque) else None) or {}
+            qual = getattr(c_.get("func"), "qual", "")
+            if qual == "_resolve_dependencies":
+                n += 1
+                ctx.ok(rule, f"{q} reports _resolve_dependencies(...) of what it collected")
+                continue
+            if not qual.endswith(".get_dependencies"):
+                continue        # some other shape: not decided here
+            n += 1
+            kw = dict(c_.get("kwargs") or {})
+            pos = list(c_.get("args") or [])
+            d = kw.get("dedup", pos[0] if pos else True)
+            ctx.check(d is True and len(pos) <= 1 and set(kw) <= {"dedup"}, rule, f"{q} reports the resolved dependencies (dedup left on)", where,
+                      f"get_dependencies({', '.join([short(x) for x in pos] + [f'{k}={short(v_)}' for k, v_ in kw.items()])})",
+                      f"{q} reports the collection obtained with dedup={short(d)}: render()['dependencies'] (and with it HTMLDocument.render's list and the "
+                      f"directories save_html copies) contains superseded versions and duplicates, while the markup links only the resolved ones",
+                      witness="HTMLDocument(div(dep_v2, dep_v1)).save_html(f, include_version=False)")
 
 
 def check(ctx: Ctx) -> None:
